@@ -30,6 +30,25 @@ Theorem C08_sticky_error_no_disk_calls : forall plan ops k,
   e = true /\ k' = k /\ Forall (fun r => r_attempted r = false /\ r_effective r = false /\ r_reported_err r = true) rs.
 Proof. exact sticky_no_calls. Qed.
 
+(* D16 (repaired): a transaction that scheduled page writes (Tx.Flush / Page.Flush) and ends in Rollback / Close.
+   Whatever call failed while those writes were executed, the writer is clean afterwards, and a following commit
+   during which no call fails reports success with every request effective ("once the failures stop new
+   transactions commit successfully"); without the reset issued by Rollback/Close the statement is false. *)
+Theorem C08_aborted_tx_does_not_poison_the_next : forall plan flushed pages hdr,
+  let '(_, e, k) := run_abort true plan flushed false 0 in
+  e = false /\
+  ((forall i, (k <= i)%nat -> plan i = false) ->
+   let '(rs, e', _) := run_writer plan (commit_prog pages hdr) e k in
+   commit_reports_error rs = false /\ Forall (fun r => r_effective r = true) rs).
+Proof. exact abort_fixed_then_commit. Qed.
+Print Assumptions C08_aborted_tx_does_not_poison_the_next.
+Theorem C08_without_the_reset_refuted : exists plan flushed pages hdr,
+  let '(_, e, k) := run_abort false plan flushed false 0 in
+  (forall i, (k <= i)%nat -> plan i = false) /\
+  let '(rs, _, _) := run_writer plan (commit_prog pages hdr) e k in
+  commit_reports_error rs = true /\ Forall (fun r => r_attempted r = false) (firstn (length pages + 2) rs).
+Proof. exact abort_unfixed_refuted. Qed.
+
 (* crash safety of faulty traces: the monitor ignores failed calls; every accepted effective trace
    recovers to the last committed view or completely to the in-flight attempt *)
 Theorem C08_fault_crash : forall fuel evs m0 m,
